@@ -274,6 +274,13 @@ def gen_c08(rng, tier):
         spec["float32"] = rng.random() < 0.1
         # integer-typed data (counts, undecoded model output): the interpolant is still real-valued
         spec["int_data"] = (not spec["float32"]) and rng.random() < 0.12
+        spec["da_coords"] = rng.random() < 0.6
+        if method == "linear" and not nd_target and rng.random() < 0.12:
+            # target_data=None: the grid's own coordinate along the axis is the target data
+            spec["td_none"] = True
+            spec["td_lower_dim"] = False
+            off = 0.5 if spec["z_pos"] != "outer" else 0.0
+            spec["theta"] = [[k + off for k in range(n)]] * ncol
     return spec
 
 
@@ -477,8 +484,11 @@ def run_grid(spec, cnt, prop, feat):
         da = da.astype("int64")
     if spec.get("td_int") and not f32:
         td = td.astype("int64")
-    da = da.assign_coords({d: ds[d] for d in da.dims if d in ds.coords})
+    if spec.get("da_coords", True):
+        da = da.assign_coords({d: ds[d] for d in da.dims if d in ds.coords})
     kw = {"target_data": td}
+    if prop == "C08" and spec.get("td_none"):
+        kw.pop("target_data")
     if prop == "C07":
         kw["method"] = "conservative"
         if spec.get("td_none"):
@@ -501,6 +511,8 @@ def run_grid(spec, cnt, prop, feat):
         if tg["kind"] == "np":
             target = np.array(tg["levels"], dtype="float64")
             exp_dim = spec.get("td_name") or "TRANSFORMED_DIMENSION"
+            if spec.get("td_none"):
+                exp_dim = zdim_th  # target_data defaults to the grid's coordinate, whose name is the dimension's
         elif tg["kind"] == "da":
             lv = np.array(tg["levels"], dtype="float64")
             target = xr.DataArray(lv, dims=[tg["dim"]], coords={tg["dim"]: lv}, name=tg["name"])
